@@ -24,6 +24,7 @@ mod c16;
 mod c17;
 mod stdprog;
 mod roblox;
+mod clone;
 
 use std::collections::BTreeMap;
 use std::io::Write;
@@ -129,6 +130,7 @@ fn main() {
         "c17" => c17::run(&args, &mut out),
         "stdprog" => stdprog::run(&args, &mut out),
         "roblox" => roblox::run(&args, &mut out),
+        "clone" => clone::run(&args, &mut out),
         other => {
             eprintln!("unknown group {other}");
             std::process::exit(2);
